@@ -7,6 +7,7 @@
 import NcVerif.Spec.Ops
 import NcVerif.Model.Ops
 import NcVerif.Proofs.Caps
+import NcVerif.Proofs.Builders
 namespace NcVerif.C09
 open NcVerif NcVerif.Gen NcVerif.OpsSpec NcVerif.Caps NcVerif.Ops
 
@@ -86,5 +87,37 @@ example : gate (mk ["urn:ietf:params:xml:ns:netconf:capability:candidate:1.0".to
 example : gate (mk ["urn:ietf:params:netconf:base:1.0".toList]) [":candidate".toList, ":url".toList] = some (.missingCapability ":candidate".toList) := by decide
 example : withDefaultsGate (mk ["urn:ietf:params:netconf:capability:with-defaults:1.0?basic-mode=explicit&also-supported=report-all,trim".toList]) " Trim ".toList = none := by decide +kernel
 example : withDefaultsGate (mk ["urn:ietf:params:netconf:capability:with-defaults:1.0?basic-mode=explicit".toList]) "trim".toList = some .withDefaults := by decide +kernel
+
+/-! ## The request builders for ALL argument values (Model/Builders, compared with the real Manager on random arguments) -/
+
+section Builders
+open NcVerif.XmlDoc NcVerif.Builders NcVerif.BuildersP
+
+/-- A request is built only if every capability its ARGUMENTS depend on (RFC 6241 §8: `:url` for a URL
+    source / target / configuration, `:validate` for any test-option and `:validate:1.1` for `test-only`,
+    `:rollback-on-error`, `:candidate`, `:confirmed-commit`) is one the server has — for every datastore
+    name, URL, option value and text the caller may pass, and every server capability set `has`. -/
+theorem built_only_with_capabilities (has : Str → Bool) (call : Call) (t : XNode)
+    (hcfg : ∀ c tg d to e, call = .edit (.xml c) tg d to e → Good c) (h : build has call = .ok t) :
+    ∀ cap ∈ Builders.required call, has (Builders.s cap) = true :=
+  (build_ok has call t hcfg h).2
+
+/-- Contrapositive, as the property words it: if the server lacks a capability the call depends on, nothing
+    is built (so nothing can be put on the wire) — the outcome is a local refusal. -/
+theorem missing_capability_builds_nothing (has : Str → Bool) (call : Call) (cap : String)
+    (hcfg : ∀ c tg d to e, call = .edit (.xml c) tg d to e → Good c)
+    (hreq : cap ∈ Builders.required call) (hmiss : has (Builders.s cap) = false) : ∃ r, build has call = .error r := by
+  cases hb : build has call with
+  | error r => exact ⟨r, rfl⟩
+  | ok t =>
+    have := built_only_with_capabilities has call t hcfg hb cap hreq
+    rw [hmiss] at this; cases this
+
+example : refusal (build (fun c => c != ":url".toList) (.getConfig "ftp://h/f".toList)) = some (.missingCapability ":url".toList) := by decide +kernel
+example : refusal (build (fun c => c != ":validate:1.1".toList) (.edit (.text "x".toList) "running".toList none (some "test-only".toList) none))
+    = some (.missingCapability ":validate:1.1".toList) := by decide +kernel
+example : (builtText (build (fun c => c != ":validate:1.1".toList) (.edit (.text "x".toList) "running".toList none (some "set".toList) none))).isSome = true := by
+  decide +kernel
+end Builders
 
 end NcVerif.C09
